@@ -195,6 +195,11 @@ fn run_case(c: &Case) -> Option<(String, String)> {
         mode[1] = scratch.join("out.raw").display().to_string();
     }
     a.extend(mode);
+    // every other case finds an older, longer statistics file at the destination: it must be replaced, not patched
+    if fp_model::util::fnv(format!("{}{:?}{}", c.label, c.mode, c.bytes.len()).as_bytes()) % 2 == 0 {
+        let stale = if c.toml { "# stale\n".repeat(40_000) } else { format!("{{\"stale\": \"{}\"}}", "x".repeat(300_000)) };
+        let _ = std::fs::write(&statp, stale);
+    }
     let mut run = Run::new(&a).cwd(&scratch.path);
     if c.stdin {
         run = run.stdin(&c.bytes);
@@ -221,6 +226,38 @@ fn run_case(c: &Case) -> Option<(String, String)> {
     let e = expected(&c.bytes, c.filter, analysed(&c.mode));
     if let Some((f, d)) = compare_stats(&st, &e) {
         return Some((format!("stat:{f}"), d));
+    }
+    // whatever the input: the code list of the statistics names every code that occurs in the listed messages, once
+    {
+        let es = &st["error_stats"];
+        let got: Vec<String> = es["unique_error_codes"].as_array().map(|a| a.iter().map(|x| x.as_str().unwrap_or("").to_string()).collect()).unwrap_or_default();
+        let mut want: Vec<String> = Vec::new();
+        let mut listed = 0u64;
+        for key in ["reported_errors", "custom_checks_stats_errors"] {
+            for m in es[key].as_array().cloned().unwrap_or_default() {
+                listed += 1;
+                let m = m.as_str().unwrap_or("").to_string();
+                let mut rest = m.as_str();
+                while let Some(i) = rest.find("[E") {
+                    let tail = &rest[i + 2..];
+                    let digits: String = tail.chars().take_while(|c| c.is_ascii_digit()).collect();
+                    if (2..=4).contains(&digits.len()) && tail[digits.len()..].starts_with(']') && !want.contains(&digits) {
+                        want.push(digits);
+                    }
+                    rest = tail;
+                }
+            }
+        }
+        let mut g = got.clone();
+        g.sort();
+        let mut w = want.clone();
+        w.sort();
+        if g != w {
+            return Some(("stat:unique_error_codes:vs-listed-messages".into(), format!("unique_error_codes = {:?}, the listed messages carry the codes {:?}", got, want)));
+        }
+        if es["total_errors"].as_u64().is_some() && es["total_errors"].as_u64() != Some(listed) {
+            return Some(("stat:total_errors:vs-listed-messages".into(), format!("total_errors = {}, {} messages are listed", es["total_errors"], listed)));
+        }
     }
     if let Some((n, codes)) = &c.errors {
         if st["error_stats"]["total_errors"].as_u64() != Some(*n) {
@@ -443,6 +480,36 @@ pub fn run(tier: Tier) -> i32 {
             for m in [vec!["check", "sanity"], vec!["check", "sanity", "its"]] {
                 cases.push(Case { label: format!("witness {} with {k} RDH sanity faults", w.name), bytes: b.clone(), mode: m, filter: None, errors: Some((k as u64, vec!["10"])), toml: k == 3, stdin: false });
             }
+        }
+    }
+    // 2b. every sequence of length <= 4 over two kinds of fault (RDH reserved bits, TDT reserved bit) laid on the
+    //     successive packets that carry a TDT: the statistics name each code once, however the faults alternate
+    {
+        let w = witnesses().into_iter().find(|w| !w.stave && w.links.iter().map(|l| l.iter().filter(|p| p.words.iter().any(|x| x.kind == grammar::WKind::Tdt)).count()).sum::<usize>() >= 4).expect("a witness with 4 TDT packets");
+        let clean = grammar::interleave(&w.links, &w.order);
+        let sites: Vec<usize> = clean.packets.iter().enumerate().filter(|(i, (_, p))| *i > 0 && p.words.iter().any(|x| x.kind == grammar::WKind::Tdt)).map(|(i, _)| i).take(4).collect();
+        for (qi, sq) in crate::gen::sequences(&[0u8, 1], 4).iter().filter(|s| s.len() >= 2).enumerate() {
+            let mut pk = clean.packets.clone();
+            for (k, kind) in sq.iter().enumerate() {
+                let p = &mut pk[sites[k]].1;
+                if *kind == 0 {
+                    p.packet.rdh.rdh3_reserved = 0x0101;
+                } else {
+                    let wi = p.words.iter().position(|x| x.kind == grammar::WKind::Tdt).unwrap();
+                    let off = p.word_rel_offset(wi) as usize - 64;
+                    p.packet.payload[off + 7] |= 0x01;
+                }
+            }
+            let b: Vec<u8> = pk.iter().flat_map(|(_, p)| p.packet.bytes()).collect();
+            let mut codes: Vec<&'static str> = Vec::new();
+            for kind in sq {
+                let c = if *kind == 0 { "10" } else { "50" };
+                if !codes.contains(&c) {
+                    codes.push(c);
+                }
+            }
+            let m = if qi % 2 == 0 { vec!["check", "sanity", "its"] } else { vec!["check", "all", "its"] };
+            cases.push(Case { label: format!("fault kinds {:?} on successive TDT packets of {}", sq, w.name), bytes: b, mode: m, filter: None, errors: Some((sq.len() as u64, codes)), toml: qi % 3 == 0, stdin: false });
         }
     }
     // 1b. small scope, complete: every RDH sequence of length <= 2 (3 thorough) over a 48-symbol alphabet
